@@ -73,9 +73,14 @@ def rand_access_list(rng, big=False):
         for _ in range(k):
             c = rng.random()
             slots.append(bytes(32) if c < 0.1 else (rng.randrange(16)).to_bytes(32, "big") if c < 0.3 else rand_bytes(rng, 32))
+        if slots and rng.random() < 0.25:
+            i = rng.randrange(len(slots))
+            slots.insert(i, slots[i])  # the same key twice in a row
         out.append((rand_bytes(rng, 20) if rng.random() < 0.9 else bytes(20), slots))
     if len(out) > 1 and rng.random() < 0.2:
         out.append(out[0])  # duplicate entry
+    elif out and rng.random() < 0.15:
+        out.append(out[-1])  # the same entry twice in a row
     return out
 
 
